@@ -35,6 +35,28 @@ mod blocks_ax {
     pub broadcast axiom fn axiom_blocks_osstring_of_injective(a: Seq<char>, b: Seq<char>)
         ensures (#[trigger] osstring_of(a) == #[trigger] osstring_of(b)) ==> a == b;
 
+    /// length and first twelve chars of a text (an index beyond the end denotes some fixed, unspecified
+    /// char). Only a vehicle to let the solver tell string LITERALS apart: vstd's literal axioms fire
+    /// on `len` / index terms, which this makes appear.
+    pub open spec fn str_sig(s: Seq<char>) -> (nat, (char, char, char, char), (char, char, char, char), (char, char, char, char)) {
+        (s.len(), (s[0], s[1], s[2], s[3]), (s[4], s[5], s[6], s[7]), (s[8], s[9], s[10], s[11]))
+    }
+
+    /// the signature of the text an `OsString` was made from
+    pub closed spec fn osstring_sig(o: OsString) -> (nat, (char, char, char, char), (char, char, char, char), (char, char, char, char)) {
+        str_sig(choose|s: Seq<char>| osstring_of(s) == o)
+    }
+
+    /// consequence of injectivity (proved from it), in the form the solver can use on literals: two
+    /// `osstring_of(<literal>)` whose texts differ in length or within the first twelve chars are told
+    /// apart by congruence
+    pub broadcast proof fn lemma_blocks_osstring_sig(a: Seq<char>)
+        ensures osstring_sig(#[trigger] osstring_of(a)) == str_sig(a),
+    {
+        let s = choose|s: Seq<char>| osstring_of(s) == osstring_of(a);
+        axiom_blocks_osstring_of_injective(s, a);
+    }
+
     pub broadcast group group_blocks_ax {
         axiom_blocks_osstring_key_model,
         axiom_blocks_pathbuf_key_model,
